@@ -40,6 +40,46 @@ pub fn kind_name(m: &Message<VId>) -> &'static str {
     }
 }
 
+/// Lenient variant for *inputs*: whatever prefix of the grammar could be read (header, as many
+/// members and items as decode), ignoring trailing garbage. `None` if not even the header decodes.
+pub fn parse_prefix(kind: CodecKind, data: &[u8]) -> Option<Parsed> {
+    let mut c = AnyCodec(kind);
+    let mut buf: &[u8] = data;
+    let header = c.decode_header(&mut buf).ok()?;
+    let header_len = data.len() - buf.remaining();
+    let mut p = Parsed { header, header_len, section: None, items: vec![] };
+    if !carries_custom(&p.header.message) {
+        return Some(p);
+    }
+    if carries_updates(&p.header.message) && buf.remaining() >= 2 {
+        let n = buf.get_u16();
+        let mut ms = Vec::new();
+        for _ in 0..n {
+            let before = buf;
+            match c.decode_member(&mut buf) {
+                Ok(m) => {
+                    let used = before.len() - buf.len();
+                    ms.push((m, before[..used].to_vec()));
+                }
+                Err(_) => {
+                    p.section = Some(ms);
+                    return Some(p);
+                }
+            }
+        }
+        p.section = Some(ms);
+    }
+    while buf.remaining() >= 3 {
+        let len = buf.get_u16() as usize;
+        if len == 0 || buf.remaining() < len {
+            break;
+        }
+        p.items.push(buf[..len].to_vec());
+        buf.advance(len);
+    }
+    Some(p)
+}
+
 pub fn parse_datagram(kind: CodecKind, data: &[u8]) -> Result<Parsed, String> {
     let mut c = AnyCodec(kind);
     let mut buf: &[u8] = data;
